@@ -8,7 +8,7 @@ trap 'git -C /repo worktree remove --force $WT; git -C /repo worktree prune' EXI
 for id in "$@"; do
   S=/verif/seeded/$id; L=$S/confirm.log; : > $L
   git -C $WT reset -q --hard HEAD; git -C $WT clean -fdq
-  line=$(grep -E "go test .*-run '?TestSeed" $S/README.md | head -1)
+  line=$(grep -E "go test .*-run '?Test[A-Za-z0-9]*Seed" $S/README.md | head -1)
   run=$(echo "$line" | sed -E "s/.*-run '?([A-Za-z0-9_]+)'?.*/\1/")
   pkg=$(echo "$line" | grep -oE '\./[A-Za-z0-9_/]+' | tail -1)
   tags=""; grep -q "seeddemo" $S/demo_test.go && tags="-tags seeddemo"
